@@ -281,6 +281,9 @@ func oneRun(r *vp.Recorder, key string, sc scenario, tm tamper) {
 			}
 		}
 		r.Outcome("rejected")
+		if strings.HasSuffix(tm.label, "-8") || tm.class == "substituted-valid-block" || tm.class == "empty-body" {
+			r.Sample(map[string]any{"scenario": fmt.Sprintf("%s chain of %d %s, segment %d", sc.hf.name, sc.L, sc.kind, sc.seg), "tampered_block": sc.k, "tamper": tm.label, "sync_error": firstLine(err.Error())})
+		}
 	}
 	// second sync: healthy
 	w.ResetHooks()
